@@ -21,7 +21,7 @@ pub const DEF: PropDef = PropDef {
 completely: write_bits(v, n) for every n in 0..=64, v = a clean value OR one stray bit at every position >= n (plus clean values incl. n = 0 \
 and n = 64, all-ones above n), at several buffer fill levels, both endiannesses, all five writer words: with `checks` the call must panic \
 exactly when a bit at or above n is set, without `checks` it must never panic and must write the n low bits; (b) the quick explorations of \
-C01, C02, C03, C04, C05, C06, C07, C08 and C12 are replayed with arguments of fixed-width writes cleaned, each case compared with the bit model \
+C01, C02, C03, C04, C05, C06, C07, C08, C10, C11, C12, C13, C14 (counting and tracing wrappers), C15, C18 and C20 are replayed with arguments of fixed-width writes cleaned, each case compared with the bit model \
 / reference codecs (so every observable result is identical across the eight builds, and no in-domain library-issued write, bulk copy or byte \
 write trips the check); the driver additionally compares, across builds, the number of cases and a digest of the case set of every \
 sub-exploration. Non-trivial: as in the replayed properties, and every dirty-sweep case; distinct = distinct case hashes (maximum over builds).",
@@ -99,6 +99,13 @@ fn subs() -> Vec<SubRun> {
         ("C07", crate::c07::DEF.run),
         ("C08", crate::c08::DEF.run),
         ("C12", crate::c12::DEF.run),
+        ("C10", crate::c10::DEF.run),
+        ("C11", crate::c11::DEF.run),
+        ("C13", crate::c13::DEF.run),
+        ("C14", crate::c14::DEF.run),
+        ("C15", crate::c15::DEF.run),
+        ("C18", crate::c18::DEF.run),
+        ("C20", crate::c20::DEF.run),
     ]
 }
 
